@@ -5,35 +5,25 @@
 
 package codecs
 
-// Verification-only accessors (build tag verif). They add no behaviour to normal builds.
+import (
+	"reflect"
+	"unsafe"
+)
+
+// Verification-only accessor (build tag verif). It adds no behaviour to normal builds. The field is
+// looked up by name at run time, so that a restructured implementation still compiles with the tag;
+// an accessor that no longer fits reports false.
 
 // VerifSetVP8PictureID sets the running picture id of a VP8 payloader.
-func VerifSetVP8PictureID(p *VP8Payloader, id uint16) { p.pictureID = id }
-
-// VerifVP8PictureID reads the running picture id of a VP8 payloader.
-func VerifVP8PictureID(p *VP8Payloader) uint16 { return p.pictureID }
-
-// VerifVP9PictureID reads the running picture id of a VP9 payloader.
-func VerifVP9PictureID(p *VP9Payloader) (uint16, bool) { return p.pictureID, p.initialized }
-
-// VerifH265DONL reads the decoding order counter of an H265 payloader.
-func VerifH265DONL(p *H265Payloader) uint16 { return p.donl }
-
-// VerifH264Pending reports the lengths of the held SPS/PPS (-1: none) - diagnostics only.
-func VerifH264Pending(p *H264Payloader) (int, int) {
-	s, q := -1, -1
-	if p.spsNalu != nil {
-		s = len(p.spsNalu)
+func VerifSetVP8PictureID(p *VP8Payloader, id uint16) bool {
+	if p == nil {
+		return false
 	}
-	if p.ppsNalu != nil {
-		q = len(p.ppsNalu)
+	f := reflect.ValueOf(p).Elem().FieldByName("pictureID")
+	if !f.IsValid() || f.Kind() != reflect.Uint16 || !f.CanAddr() {
+		return false
 	}
+	reflect.NewAt(f.Type(), unsafe.Pointer(f.UnsafeAddr())).Elem().SetUint(uint64(id)) //nolint:gosec
 
-	return s, q
+	return true
 }
-
-// VerifH264FUABufferLen reports the length of the FU-A reassembly buffer - diagnostics only.
-func VerifH264FUABufferLen(p *H264Packet) int { return len(p.fuaBuffer) }
-
-// VerifAV1BufferLen reports the length of the AV1 fragment buffer - diagnostics only.
-func VerifAV1BufferLen(d *AV1Depacketizer) int { return len(d.buffer) }
